@@ -20,11 +20,11 @@ theorem table_obligations : ∀ p ∈ Gen.accepted, checkTable Gen.rule p = true
 theorem corner_obligations : ∀ dim ∈ Gen.cornerDims, checkCorners Gen.corners dim = true := by
   decide +kernel
 
-/-- `"max"` resolves, in every dimension that has a table at all, to an order that has a table. -/
+/-- (tie check on generated tables) `"max"` resolves, in every dimension that has a table at all, to an order that has a table. -/
 theorem max_alias : ∀ p ∈ Gen.accepted, ∃ o, Gen.maxOrder p.1 = some o ∧ (p.1, o) ∈ Gen.accepted := by
   decide
 
-/-- **the rejected part of the API**: on the whole probed range (dims 0..4, orders 0..6) the extracted table
+/-- (tie check: extracted table vs tabulated API) **the rejected part of the API**: on the whole probed range (dims 0..4, orders 0..6) the extracted table
 accepts exactly the pairs the running `gauss` accepts and rejects exactly the pairs it rejects, with the same
 error class; every accepted pair lies in the probed range and returns as many points / weights as the table
 lists. A pair that becomes accepted (like an unfinished `(3, 3)` branch) therefore either enters `Gen.accepted`
@@ -144,6 +144,16 @@ integrated exactly over `[0,1]^dim`. -/
 theorem corner_rule_multilinear : ∀ dim ∈ Gen.cornerDims, ∃ r, Gen.corners dim = .ok r ∧ CornerSpec r dim :=
   fun dim hd => checkCorners_sound (corner_obligations dim hd)
 
+/-- the corner rule on every multilinear POLYNOMIAL (terms of per-variable degree ≤ 1): the rule returns the
+term-wise integral over `[0,1]^dim` -/
+theorem corner_rule_polynomials : ∀ dim ∈ Gen.cornerDims, ∃ r, Gen.corners dim = .ok r ∧
+    ∀ terms : List (ℝ × List ℕ), (∀ c ∈ terms, c.2.length = dim ∧ ∀ e ∈ c.2, e ≤ 1) →
+      (r.real.map fun pw => pw.2 * polyEval terms pw.1).sum
+        = (terms.map fun c => c.1 * (c.2.map fun k => ∫ x in (0 : ℝ)..1, x ^ k).prod).sum := by
+  intro dim hd
+  obtain ⟨r, hr, hc⟩ := corner_rule_multilinear dim hd
+  exact ⟨r, hr, fun terms ht => exact_polyN hc.exact terms ht⟩
+
 /-! ### the consumer: `transport_density` / `l1_dissipation` (wasserstein.py) -/
 
 /-- the unit-cell rule of every accepted `(dim, order)` has what a consumer needs: non-negative weights
@@ -160,8 +170,10 @@ theorem corner_rule_facts : ∀ dim ∈ Gen.cornerDims, ∃ r, Gen.corners dim =
   obtain ⟨r, hr, hc⟩ := corner_rule_multilinear dim hd
   exact ⟨r, hr, hc.facts⟩
 
-/-- every L1 mode's quadrature call (extracted from `transport_density`) resolves to a proved rule -/
-theorem l1_obligation : checkL1 Gen.accepted Gen.cornerDims Gen.l1Source = true := by decide
+/-- (tie check on generated tables) every L1 mode's quadrature call — extracted from `transport_density` together
+with the structural fact that the function does nothing with the rule but the plain weighted sum
+`density += weight * norm(face_to_cell(flux, point))` over `zip(points, weights)` — resolves to a proved rule -/
+theorem l1_obligation : checkL1 Gen.accepted Gen.cornerDims Gen.l1Source Gen.l1LoopPlain = true := by decide
 
 /-- **the rule `transport_density` sums over, in every L1 mode and every dimension with tables**, has the
 consumer facts. -/
@@ -169,8 +181,8 @@ theorem l1_rule_facts : ∀ mode ∈ L1Mode.all, ∀ p ∈ Gen.accepted,
     ∃ r, l1Rule Gen.maxOrder Gen.rule Gen.corners Gen.l1Source mode p.1 = .ok r ∧ UnitRuleFacts r.real p.1 := by
   intro mode hmode p hp
   have hc := l1_obligation
-  simp only [checkL1, List.all_eq_true] at hc
-  have h := hc mode hmode p hp
+  simp only [checkL1, Bool.and_eq_true, List.all_eq_true] at hc
+  have h := hc.2 mode hmode p hp
   unfold l1Rule
   cases hs : Gen.l1Source mode with
   | error e => simp [hs] at h
